@@ -60,23 +60,25 @@ def snapshotOp (j : Json) : Except String Json := do
   let snap := snapshotOf pathLe arrivals
   pure (Json.mkObj [("snapshot", Json.arr (snap.map (fun kv => Json.arr #[jkey kv.1, toJson kv.2])).toArray)])
 
-/-- request: assets = [[key string, uploadable, payload]] in enumeration order;
+/-- request: assets = [[key string, fileid string, uploadable, payload]] in enumeration order;
 events = [[key parts, [diagnostic ids]]] in reporting order -/
 def manifestOp (j : Json) : Except String Json := do
   let assets ← (← arr j "assets").toList.mapM (fun e => do
     let a ← e.getArr?
     match a.toList with
-    | [k, u, p] => pure (cps (← k.getStr?), (← u.getBool?), (← p.getNat?))
-    | _ => throw "asset must be [key, uploadable, payload]")
+    | [k, f, u, p] => pure (cps (← k.getStr?), cps (← f.getStr?), (← u.getBool?), (← p.getNat?))
+    | _ => throw "asset must be [key, fileid, uploadable, payload]")
   let events ← (← arr j "events").toList.mapM (fun e => do
     let a ← e.getArr?
     match a.toList with
     | [k, ds] => pure ((← parseKey k), (← (← ds.getArr?).toList.mapM (fun d => d.getNat?)))
     | _ => throw "event must be [key, diagnostics]")
-  let outA := manifestAssets bytesLe assets
+  let outA := manifestOfSet assets
+  let outOld := manifestOfSetKeyOnly assets
   let outD := manifestDiagnostics pathLe events
   pure (Json.mkObj [
-    ("assets", Json.arr (outA.map (fun a => Json.arr #[Json.str (String.ofList (a.1.map Char.ofNat)), toJson a.2.2])).toArray),
+    ("assets", Json.arr (outA.map (fun a => Json.arr #[Json.str (String.ofList ((a.1.headD []).map Char.ofNat)), toJson a.2.2])).toArray),
+    ("assets_key_only", Json.arr (outOld.map (fun a => Json.arr #[Json.str (String.ofList (a.1.map Char.ofNat)), toJson a.2.2])).toArray),
     ("diagnostics", Json.arr (outD.map (fun e => Json.arr #[jkey e.1, jnats e.2])).toArray)])
 
 def pyQuote (s : List Char) : List Char := ['\''] ++ s ++ ['\'']
